@@ -237,18 +237,25 @@ structure Blocks (K : Type) where
   shapeUK : Nat × Nat
 deriving Repr
 
+/-- `kkk[np.ix_(ex, ex)]` with `ex = np.sort(E)` applied to the dense leading `num0 × num0` block: the entries whose
+row and column are both prescribed, re-indexed by their rank in `ex` (numpy raises `IndexError` for a prescribed index
+`≥ num0`; `_rebuild` only produces indices `< 3 = num0`, and entries outside the leading block are filtered out). -/
+def takeBlock (num0 : Nat) (ex : List Nat) (k : Coo K) : Coo K :=
+  (k.filter fun e => decide (e.1 < num0) && decide (e.2.1 < num0) && decide (e.1 ∈ ex) && decide (e.2.1 ∈ ex)).map
+    fun e => (ex.idxOf e.1, ex.idxOf e.2.1, e.2.2)
+
 /-- `exclude_dofs_matrix(k, True, True, True)` for an `n × n` matrix; `num0` is the ATTRIBUTE `self.num0`
 (always 3), `E = self.excluded_dofs`.  `np.delete` on the dense blocks is modelled by the same
-largest-first index shifting as the sparse loops. -/
+largest-first index shifting as the sparse loops; `kkk` is the block `[np.ix_(sort E, sort E)]` of the leading block. -/
 def excludeDofsMatrix (num0 : Nat) (E : List Nat) (n : Nat) (k : Coo K) : Blocks K :=
   let ds := sortDesc E
   let ne := E.length
   { kuu := dropCols ds (dropRows ds k)
-    kkk := dropCols ds (dropRows ds (k.filter fun e => decide (e.1 < num0) && decide (e.2.1 < num0)))
+    kkk := takeBlock num0 (sortAsc E) k
     kku := dropCols ds (k.filter fun e => decide (e.1 < num0))
     kuk := dropRows ds (k.filter fun e => decide (e.2.1 < num0))
     shapeUU := (n - ne, n - ne)
-    shapeKK := (num0 - ne, num0 - ne)
+    shapeKK := (ne, ne)
     shapeKU := (num0, n - ne)
     shapeUK := (n - ne, num0) }
 
@@ -304,6 +311,7 @@ structure FextIn (K : Type) where
   inc : K
   uTM : K             -- self.uTM
   thetaT : K          -- self.thetaTrad
+  LA : K              -- self.LA = r2*tan(betarad), the prescribed value of amplitude 2
   Nxxtop : List K     -- self.Nxxtop (array)
   pi : K
   r2 : K
@@ -365,8 +373,8 @@ def fextTmp (a : FextIn K) (Ptot : K) : List K :=
       else addAt acc (a.num0 + di * a.num1 + 2) (Ptot * pressureCoef a.L a.r2 a.sina i1)) t2
   else t2
 
-/-- `calc_fext(inc)` (with `kuk=None`) -/
-def calcFext (a : FextIn K) : Except FextErr (List K) :=
+/-- `calc_fext(inc)` (with `kuk=None`) up to and including the torsion block -/
+def calcFextCore (a : FextIn K) : Except FextErr (List K) :=
   let nu := a.size - a.E.length
   let f0 : List K := npDelete a.E (zeros a.size)
   -- constant and incremented point forces
@@ -385,6 +393,16 @@ def calcFext (a : FextIn K) : Except FextErr (List K) :=
         let T := a.T + a.inc * a.Tinc
         if T ≠ 0 then vadd f4 (pointTerm a.E a.dofs 1 ⟨0, T / a.r2, 0, a.g00⟩) else f4
     .ok f5
+
+/-- `calc_fext(inc)` (with `kuk=None`): the last block moves the always-prescribed load-asymmetry amplitude
+(`c₂ = inc·LA`) to the right-hand side, `fext += -inc*LA*k0uk[:, 2]` -/
+def calcFext (a : FextIn K) : Except FextErr (List K) :=
+  match calcFextCore a with
+  | .error e => .error e
+  | .ok f =>
+    if 2 ∈ a.E ∧ a.LA ≠ 0 then
+      .ok (vadd f (vsmul (-(a.inc * a.LA)) (a.k0uk.column (a.size - a.E.length) 2)))
+    else .ok f
 
 end fext
 
